@@ -20,6 +20,7 @@ func init() {
 			"D1b no goroutine, clock, random or pid source is reachable from the syntax entry points; " +
 			"D2 a positive example (map loop writing to a builder) must be flagged on every run, " +
 			"D3 sibling agreement of key orders: where pointer keys collected from a map are sorted by a comparator, no site orders a key type by a strict subset of the fields another site uses for the same type. " +
+			"D4 a comparator of keys taken from a map that compares a location's line also compares its file and column (sort.Slice closures and Less methods, accessors looked through). " +
 			"NOT decided: order dependence through pointer identity, whether a comparator is a total order on the values it meets (only the sibling contradiction is), stability of topoSort.",
 		Assumptions: commonAssumptions,
 	}
@@ -52,7 +53,7 @@ func sortAfterLoop(c *an.Ctx, l *an.MapLoop, cfg *an.OrderConfig) (bool, string)
 // callerSorts: fn's only callers are `callers`, and each sorts the value it receives from fn.
 func callerSorts(callers ...string) func(c *an.Ctx, l *an.MapLoop, cfg *an.OrderConfig) (bool, string) {
 	return func(c *an.Ctx, l *an.MapLoop, cfg *an.OrderConfig) (bool, string) {
-		got := callerNames(c.P, l.Fn)
+		got := effectiveCallers(c.P, l.Fn, callers)
 		if ok, extra := subset(got, callers); !ok || len(got) == 0 {
 			return false, "unexpected caller " + extra
 		}
@@ -214,6 +215,9 @@ func c10Config(p *an.Prog) *an.OrderConfig {
 		},
 		IsSort: func(c ssa.CallInstruction) (ssa.Value, bool) {
 			f := c.Common().StaticCallee()
+			if f != nil && f.Origin() != nil {
+				f = f.Origin() // slices.Sort[[]string] is an instantiation without a package of its own
+			}
 			if f == nil || f.Pkg == nil {
 				return nil, false
 			}
